@@ -11,6 +11,9 @@ na = []
 for p in props:
     pid = p['id']
     c = src['checks'].get(pid)
+    if pid in src.get('pending', {}):
+        na.append({'property_id': pid, 'reason': src['pending'][pid]})
+        continue
     if not c:
         na.append({'property_id': pid, 'reason': src['not_applicable'].get(pid, 'check not built yet in this round; planned design in DESIGN.md section 4')})
         continue
